@@ -95,6 +95,17 @@ def _ext_axiom(sort, diff, size):
     return z3.parse_smt2_string(txt, sorts=sorts, decls={d: diff, f: size})[0]
 
 
+def _pos_axiom(sort, esort, size, is_bag):
+    """A collection with a member has positive length (multi-pattern {member test, length})."""
+    from . import ty as T
+    so, eo, f = sort.sexpr(), esort.sexpr(), size.name()
+    mem = "(>= (select s x) 1)" if is_bag else "(select s x)"
+    txt = f"(assert (forall ((s {so}) (x {eo})) (! (=> {mem} (>= ({f} s) 1)) :pattern ((select s x) ({f} s)))))"
+    sorts = {x.name(): x for x in (T.TupS, T.MetaS, T.LayerS, T.StrS, T.FieldS, T.ValS)}
+    sorts.update({x.name(): x for x in T._pairs.values()})
+    return z3.parse_smt2_string(txt, sorts=sorts, decls={f: size})[0]
+
+
 _coll_cache = {}
 
 
@@ -123,6 +134,8 @@ def _collection_axioms(e):
         f"bag01_len[{n}]": FA([b], z3.Implies(z3.And(0 <= b[w01(b)], b[w01(b)] <= 1), blen(b) == card(supp(b))), blen(b)),
         # extensionality, tried for every pair of collections whose length is mentioned (multi-pattern; built from
         # SMT-LIB text because z3's Python MultiPattern is unreliable on array-sorted arguments)
+        f"card_pos[{n}]": _pos_axiom(st.sort(), e.sort(), card, False),
+        f"blen_pos[{n}]": _pos_axiom(bt.sort(), e.sort(), blen, True),
         f"card_ext[{n}]": _ext_axiom(st.sort(), sd, card),
         f"blen_ext[{n}]": _ext_axiom(bt.sort(), bd, blen),
         f"card_nonneg[{n}]": FA([s], card(s) >= 0, card(s)),
@@ -134,9 +147,13 @@ def _collection_axioms(e):
     }
 
 
+EXTRA = {}    # name -> axiom, registered by contract modules (assumed properties of uncontracted code; listed as trusted)
+
+
 def all_axioms():
     from . import ty as T
     out = dict(THEORY)
+    out.update(EXTRA)
     for e in list(T.ELEM_TYPES.values()):
         out.update(collection_axioms(e))
     return out
